@@ -382,8 +382,13 @@ def rule_feedback(repo: Repo, rep: Report) -> int:
     rep.check(not bad, "ROUNDS", fi, "iteration loop has no break/continue/return", "no early exit: every round runs all five stages", f"round can be cut short by `{unparse(bad[0]) if bad else ''}`", node=bad[0] if bad else lp)
     n += 2
     ivar = unparse(lp.target)
+    # the local that carries the processed feedback into the encoder: whatever name receives the processor's result
+    state_names = {t_.id for s_ in ast.walk(lp) if isinstance(s_, ast.Assign) and any(isinstance(c_, ast.Call) and attr_chain(c_.func) == "self.feedback_processor" for c_ in ast.walk(s_.value)) for t_ in s_.targets if isinstance(t_, ast.Name)} or {"encoder_state"}
     for first in (True, False):
-        atoms = {f"{ivar} > 0": not first, f"{ivar} == 0": first, "encoder_state is not None": not first, "encoder_state is None": first}
+        atoms = {f"{ivar} > 0": not first, f"{ivar} == 0": first, f"{ivar} >= 1": not first, f"{ivar} < 1": first}
+        for sn_ in state_names:
+            atoms[f"{sn_} is not None"] = not first
+            atoms[f"{sn_} is None"] = first
         interp = Provenance(fi, repo, res, config=atoms_config(atoms))
         env = {"input_data": single("in"), "args": NONE, "kwargs": NONE}
         interp.run(env)
@@ -396,9 +401,18 @@ def rule_feedback(repo: Repo, rep: Report) -> int:
             enc = "enc(in,*,**)"
         else:
             enc = None
-        dec_terms = set(end.get("decoded") or ())
-        fb_terms = set(end.get("feedback") or ())
-        fbsrc = {"φ(feedback)", "None"}
+        # the round's results, whatever the locals are called: the value whose outermost stage is the decoder / the feedback channel
+        def by_outer(tag):
+            out_ = set()
+            for k_, v_ in end.items():
+                if isinstance(v_, (set, frozenset)) and v_ and all(isinstance(t_, str) and t_.startswith(tag + "(") for t_ in v_):
+                    out_ |= set(v_)
+            return out_
+
+        dec_terms = set(end.get("decoded") or ()) or by_outer("dec")
+        fb_terms = set(end.get("feedback") or ()) or by_outer("fbch")
+        carried = {t_.id for s_ in ast.walk(lp) if isinstance(s_, ast.Assign) and isinstance(s_.value, ast.Call) and attr_chain(s_.value.func) == "self.feedback_channel" for t_ in s_.targets if isinstance(t_, ast.Name)} or {"feedback"}
+        fbsrc = {f"φ({nm_})" for nm_ in carried} | {"None"}
         want_dec = set()
         want_fb = set()
         if first:
